@@ -160,7 +160,6 @@ class Blob:
 
     def materialize_prefix(self, n: int):
         items = []
-        c = ctx()
         for s in self.segs:
             if len(items) >= n:
                 break
@@ -169,7 +168,7 @@ class Blob:
             lc = _conc(ln)
             if lc is None:
                 # symbolic length: usable only if provably >= need (then we take `need`)
-                if not c.proves(_n(ln).t >= need):
+                if not ctx().proves(_n(ln).t >= need):
                     raise Unsupported("cannot materialise across a segment of unknown length")
                 lc = need
             k = min(lc, need)
@@ -179,6 +178,7 @@ class Blob:
                 items.extend(s[1].items[:k])
             else:
                 atom, start = s[1], s[2]
+                c = ctx()
                 for j in range(k):
                     e = SymNum(z3.Select(atom.arr, _n(start + j).t))
                     c.assume_term(z3.And(e.t >= 0, e.t <= 255))
